@@ -471,7 +471,7 @@ def run(rep):
     rep.floor("R-C13-mask", 1 + 7 + 3)
     rep.floor("R-C13-order", 7 * 4)
     rep.floor("R-C13-report", 5 + 2 + 2 + 2 + 1)
-    rep.floor("R-C03-panic-sites", 21)
+    rep.floor("R-C03-panic-sites", 16)     # 2x on the reviewed tree; the five debug_asserts of the process bodies may legitimately go
     rep.floor("R-C13-args", 14)
     rep.floor("R-C13-ctor", 7 + 9)
     rep.clause("R-C13-mask", "every length-sensitive use of the caller's mask (copy_from_slice, indexing) is preceded by a length test returning WrongNumberOfMaskChannels")
